@@ -66,6 +66,7 @@ def run(ctx: Ctx, rep: Report) -> None:
     # a swap that is only tried out is taken back on every exit
     from ..rules.undo import rule_undo
     rule_undo(ctx, rep, ('bqskit/passes/mapping/',), 1)
+    swap_radix(ctx, rep)
     g = ctx.cls('bqskit/qis/graph.py:CouplingGraph')
     hashrule.rule_hash(ctx, rep, [g])
 
@@ -592,3 +593,40 @@ def publish(ctx: Ctx, rep: Report) -> None:
         'Circuit(model.num_qudits, model.radixes)', key='embed',
     )
     _ = AnalysisError
+
+
+def swap_radix(ctx: Ctx, rep: Report) -> None:
+    """SWAPRADIX: the routing passes emit swaps into a circuit of arbitrary
+    (uniform) radix.  Every `SwapGate(...)` built under bqskit/passes/mapping
+    names its radix, and a function that builds one has rejected mixed
+    radixes first (the SABRE parent does both; its PAM override did
+    neither: F52)."""
+    R = 'SWAPRADIX'
+    n = 0
+    for f in ctx.index.all_functions():
+        if not f.path.startswith('bqskit/passes/mapping/'):
+            continue
+        swaps = [c for c in ast.walk(f.node) if isinstance(c, ast.Call)
+                 and norm(c.func) == 'SwapGate']
+        if not swaps:
+            continue
+        n += 1
+        rep.count()
+        rep.seen(f.qualname)
+        bare = [c for c in swaps if not c.args and not c.keywords]
+        guarded = any(
+            isinstance(r, ast.Raise) for r in ast.walk(f.node)
+        ) and 'radixes' in norm(f.node)
+        rep.check(
+            not bare and guarded, R,
+            (f.cls.name + '.' if f.cls is not None else '') + f.name,
+            f.path, (bare[0].lineno if bare else f.lineno),
+            f'{len(swaps)} SwapGate constructions name the radix; mixed '
+            'radixes are rejected',
+            ((f'`SwapGate()` at line {bare[0].lineno} is the qubit swap: a '
+              'qutrit circuit cannot be routed ("Operation radix mismatch '
+              'with Circuit")') if bare else
+             'swaps are built without rejecting mixed radixes first'),
+            key='bare-swap' if bare else 'no-guard',
+        )
+    rep.floor(R, n, 2, 'functions that emit swaps')
